@@ -245,6 +245,12 @@ def takeFaithful (p : MessagePath) (f : FanoutBody) : Bool :=
   f.onePerSender && decide (f.sampleTimestamp = .msgAttr "timestamp") &&
   decide (f.sampleValue = .quantityOfExtractor) && f.guards.all guardBenign
 
+/-- `Chan` identifies a request with its registry channel: the channel name must be a function of the CURRENT values
+of exactly the four fields of `Chan` (namespace, component id, metric, rendered start time) — recomputed on every call,
+so that an object that is copied / mutated and submitted again names the channel of its new field values. -/
+def chanIsChannelName (c : ChannelName) : Bool :=
+  c.pure && decide (c.fields = ["namespace", "component_id", "metric_id.name", "start_time"])
+
 /-! ### What a metric id means (specification side, independent of the source tables) -/
 
 def lowerChar (c : Char) : Char := if 'A' ≤ c ∧ c ≤ 'Z' then Char.ofNat (c.toNat + 32) else c
